@@ -23,7 +23,7 @@ func init() {
 		Rule: "E-twin consumer + E-fault: (1) benign PRNG programs (the C01 family with file watches and consumer pauses so the reader lags) must leave Errors empty; " +
 			"(2) directed two-step histories whose second step invalidates a kernel watch before the first notification is processed (rename-then-delete, rename-then-rmdir, delete-then-Remove, rename-then-Remove, recreate-then-re-Add, rename-rename-delete) " +
 			"with the reader held back by a paused consumer for 0..64 earlier events, on files and directories; (3) real queue overflows of 1.1x and 2x max_queued_events (8x in thorough), twice in a row, with changes made while the overflow marker is still unread (after part of the queue was consumed), strace-injected EIO on the inotify read (must be reported, and survived), and the other read paths of the reader: injected EINTR (not a failure: nothing on Errors, nothing lost), injected return values 0 and 8 (end of file / short read: reported, survived): " +
-			"an error satisfying errors.Is(ErrEventOverflow) must arrive, afterwards a sentinel, ordinary events, Add and Remove must work. distinct_nontrivial = distinct programs/histories that delivered >=1 event",
+			"plus the close race (hundreds of iterations: a watched file renamed and the Watcher closed at once while WatchList pollers contend for its lock: nothing may arrive on Errors); an error satisfying errors.Is(ErrEventOverflow) must arrive, afterwards a sentinel, ordinary events, Add and Remove must work. distinct_nontrivial = distinct programs/histories that delivered >=1 event",
 		Assumptions: []string{"no fault is injected in parts (1) and (2): any value on Errors there is spurious", "overflow is provoked only in part (3)"},
 		Batches:     func(t string) int { return map[string]int{"quick": 16, "thorough": 64}[t] },
 		MustObserve: []string{"events_received", "directed_histories", "overflow_cases", "other_read_fault_sessions"},
@@ -185,6 +185,9 @@ func runC10(c *core.Ctx) {
 	}
 	if c.Only < 0 {
 		c10OtherReadFaults(c)
+	}
+	if c.Batch%4 == 3 {
+		closeRace(c, 9700, true, false)
 	}
 	if c.Batch >= 8 && c.Batch-8 < len(faultWhens) && c.Only < 0 {
 		when := faultWhens[c.Batch-8]
